@@ -225,7 +225,7 @@ type memRespWriter struct {
 	status      int
 	snapshot    http.Header
 	committed   bool
-	pending     []byte
+	pending     [][]byte // one entry per Write: the network may deliver them separately
 	closeAfter  bool
 	broken      bool // bytes were dropped on a closed connection: the body can no longer end cleanly
 }
@@ -248,7 +248,7 @@ func (w *memRespWriter) Write(b []byte) (int, error) {
 	if w.broken {
 		return 0, fmt.Errorf("write: connection closed")
 	}
-	w.pending = append(w.pending, b...)
+	w.pending = append(w.pending, append([]byte(nil), b...))
 	return len(b), nil
 }
 
@@ -305,13 +305,16 @@ func (w *memRespWriter) commit() {
 
 func (w *memRespWriter) Flush() {
 	w.commit()
-	if len(w.pending) > 0 {
+	for _, chunk := range w.pending {
+		if len(chunk) == 0 {
+			continue
+		}
 		// bytes written after the connection was closed never reach the peer
-		if w.broken || mc.SelectPri(mc.RecvCase(w.c.connClosed), mc.SendCase(w.c.respCh, w.pending)) == 0 {
+		if w.broken || mc.SelectPri(mc.RecvCase(w.c.connClosed), mc.SendCase(w.c.respCh, chunk)) == 0 {
 			w.broken = true
 		}
-		w.pending = nil
 	}
+	w.pending = nil
 }
 
 func (w *memRespWriter) finishRequest() {
